@@ -644,6 +644,13 @@ def load_module(modname, path, shims, pkg_modules):
         __symmod__=symmod,
         __symin__=symin,
     )
+    # importable by name (the pure-Python pickler looks classes up through sys.modules)
+    pkg = sys.modules.get("lasio_sym")
+    if pkg is None:
+        pkg = sys.modules["lasio_sym"] = types.ModuleType("lasio_sym")
+        pkg.__path__ = []
+    sys.modules[modname] = mod
+    setattr(pkg, modname.split(".")[-1], mod)
     exec(compile(tree, path, "exec"), mod.__dict__)
     return mod
 
